@@ -8,7 +8,7 @@ Spec layout (all indices are positions in the spec's own lists):
   tasks : [{work, prog, auto, nf, comp, wpr, wr, fr, fixw, fixf, due, rate, sub?}]
   deps  : [[pred, succ, kind]]            pred < succ (acyclic by construction), kind 0..3 = FS,SS,FF,SF
   order : permutation of range(len(tasks)) = order of workflow.task_list (optional)
-  comps : [{space, parent}]
+  comps : [{space, parent, extra_tasks?: [task]}]   extra_tasks = tasks listed by the component only (no back link)
   teams : [{targets: [task], notask?: [task]}]   notask = links kept on the team/workplace side only
   workers: [{team, cost, solo, skills: {str(task): v}, fsk: {str(facility): v}, abs: [int], mw: wp|None}]
   wps   : [{cap, targets: [task], inputs: [wp]}]
@@ -214,6 +214,11 @@ def build(spec, task_hashes=None, comp_hashes=None, junk=0):
     for i, t in enumerate(tspecs):
         if t.get("comp") is not None:
             h.comps[t["comp"]].append_targeted_task(h.tasks[i])
+    for i, c in enumerate(cspecs):
+        # one-sided links (what BaseComponent(targeted_task_list=[...]) gives): the component lists the task,
+        # the task's target_component does not point back (it may point to another component)
+        for k in c.get("extra_tasks", ()):
+            h.comps[i].targeted_task_list.append(h.tasks[k])
 
     for i, tm in enumerate(spec.get("teams", [])):
         team = BaseTeam(name="TM" + str(i), ID=tmid(i))
